@@ -13,3 +13,13 @@ package graphdb
 //@   ensures (e1 == nil && e2 != nil) || older1 ==> result0 == node1 && forall(i, 0, 33, result1[i] == 0)
 //@   ensures e1 != nil && !older1 ==> forall(i, 0, 33, result0[i] == 0) && result1 == node2
 //@   site call Before: assert arg(0) == *e1 && arg(1) == *e2
+//@
+//@ // ---- what the reject cache remembers for a channel is what was just read from disk, per direction
+//@ func (c *KVStore) HasV1ChannelEdge
+//@   props C20
+//@   loop * havoc
+//@   site call Unix nth 4: assert arg(0).wall == upd1Time.wall && arg(0).ext == upd1Time.ext
+//@   site call Unix nth 5: assert arg(0).wall == upd2Time.wall && arg(0).ext == upd2Time.ext
+//@   site call insert: assert arg(2) == chanID && arg(3).upd1Time == ret(Unix, 4) && arg(3).upd2Time == ret(Unix, 5) &&
+//@        arg(3).flags == ret(packRejectFlags)
+//@   site call packRejectFlags: assert arg(0) == exists && arg(1) == isZombie
